@@ -636,6 +636,15 @@ static void iauth_xquery_config_service(const char *name, const char *type)
     srv->configured = 1;
 }
 
+static void iauth_xquery_services_changed(struct conf_node_base *node);
+
+/** Handles an in-place change to one service entry. */
+static void iauth_xquery_service_changed(struct conf_node_base *node)
+{
+    /* The type lives in the entry's value; rescan the whole section. */
+    iauth_xquery_services_changed(&node->parent->base);
+}
+
 static void iauth_xquery_services_changed(struct conf_node_base *node)
 {
     struct iauth_xquery_service *srv;
@@ -654,9 +663,14 @@ static void iauth_xquery_services_changed(struct conf_node_base *node)
         for (jj = set_first(&conf.root->contents); jj != NULL; jj = set_next(jj)) {
             struct conf_node_base *base = set_node_data(jj);
 
+            /* Make sure we hear about changes to the entry's value. */
+            if (!base->hook)
+                base->hook = iauth_xquery_service_changed;
+
             if (base->type == CONF_STRING) {
                 struct conf_node_string *str = set_node_data(jj);
-                iauth_xquery_config_service(str->base.name, str->value);
+                if (str->value)
+                    iauth_xquery_config_service(str->base.name, str->value);
             } /* else unknown type */
         }
 
